@@ -80,8 +80,10 @@ class SymComplexV:
 
 
 class StrOf:
-    def __init__(s, n):
-        s.n = n
+    """the text of the int n in the given notation ('dec' from str(), 'hex' from hex())"""
+
+    def __init__(s, n, kind="dec"):
+        s.n, s.kind = n, kind
 
 
 def h_isinstance(x, t):
@@ -104,8 +106,21 @@ def h_isnan(x):
     return bool(SymBool(z3.fpIsNaN(x.z))) if isinstance(x, SymFloat) else math.isnan(x)
 
 
+_REFUSALS = [0]
+
+
 def h_str(x):
-    return StrOf(x) if isinstance(x, SymInt) else str(x)
+    if isinstance(x, SymInt):
+        # an interpreter with an int<->str digit limit may refuse an int whatever its size (the limit is configurable): both outcomes are explored
+        _REFUSALS[0] += 1
+        if Ctx.cur.decide(z3.Bool("str_refuses_the_int!%d" % _REFUSALS[0])):
+            raise sem(ValueError("Exceeds the limit (4300) for integer string conversion"))
+        return StrOf(x)
+    return str(x)
+
+
+def h_hex(x):
+    return StrOf(x, "hex") if isinstance(x, SymInt) else hex(x)
 
 
 def real_call(f, *a):
@@ -116,12 +131,14 @@ def real_call(f, *a):
         raise sem(e)
 
 
-def h_int(x):
+def h_int(x, base=10):
     if isinstance(x, StrOf):
-        return x.n                   # assumed: int(str(n)) == n
+        if x.kind == "hex" and base not in (0, 16):
+            raise sem(ValueError("invalid literal for int() with base %d" % base))
+        return x.n                   # assumed: int(str(n)) == n, int(str(n), 0) == n, int(hex(n), 0) == n
     if isinstance(x, (SymStr, ReprOf, Opaque)):
         raise Unsupported("int() of an opaque string")
-    return real_call(int, x)
+    return real_call(int, x, base) if isinstance(x, str) else real_call(int, x)
 
 
 def h_repr(x):
@@ -154,7 +171,7 @@ def h_complex(a, b=0):
     return SymComplexV(a, b) if isinstance(a, SymFloat) or isinstance(b, SymFloat) else real_call(complex, a, b)
 
 
-HOOKS = dict(isinstance=h_isinstance, isinf=h_isinf, isnan=h_isnan, str=h_str, int=h_int, repr=h_repr, ascii=h_repr, literal_eval=h_literal_eval,
+HOOKS = dict(isinstance=h_isinstance, isinf=h_isinf, isnan=h_isnan, str=h_str, hex=h_hex, int=h_int, repr=h_repr, ascii=h_repr, literal_eval=h_literal_eval,
              b64encode=h_b64encode, b64decode=h_b64decode, complex=h_complex, float=h_float)
 
 
@@ -254,7 +271,7 @@ def _register():
                 same(ctx, "roundtrip.value_type_and_bit_exact", v, back)
         harness("json.constant_codec.roundtrip[%s]" % name, props=["C07", "C06", "C15"], functions=["code_data._json_data.value_to_json", "code_data._json_data.constant_value_from_json"],
                 configs="any",
-                assumes=["b64decode(b64encode(b).decode('ascii')) == b", "ast.literal_eval(ascii(s)) == s and ast.literal_eval(repr(s)) == s for str", "int(str(n)) == n",
+                assumes=["b64decode(b64encode(b).decode('ascii')) == b", "ast.literal_eval(ascii(s)) == s and ast.literal_eval(repr(s)) == s for str", "int(str(n)) == n, int(str(n), 0) == n, int(hex(n), 0) == n; str(n) may raise ValueError (digit limit)",
                          "meta-step: structural induction over the constant datatype (container elements are the hypothesis)"],
                 notes="symbolic payload: the encoded value is plain JSON (string keys, ints within +-2^53, finite floats, valid text) and decodes to the same value, "
                       "type- and bit-exact, NaNs identified; no earlier decoder branch shadows the tag")(h)
